@@ -42,6 +42,32 @@ pub fn special_messages(r: &mut StdRng) -> Vec<Message> {
             }
         }
     }
+    // text fields set through the public conversions from strings that are longer than the field, with a wide character
+    // straddling the capacity (1029: 255 bytes / 127 characters; descriptors: 31 characters)
+    if let Some(Message::Msg1029(t)) = template(r, 1029) {
+        for (pre, ch, n) in [(1usize, '漢', 90usize), (0, '漢', 86), (2, 'é', 130), (254, 'é', 2), (253, '\u{10000}', 2), (252, '\u{10000}', 1), (0, 'a', 300), (120, '\u{1F600}', 10)] {
+            let txt: String = "a".repeat(pre) + &ch.to_string().repeat(n);
+            if let Ok(m) = crate::util::guarded(|| {
+                let mut t = t.clone();
+                t.text_str = rtcm_rs::util::ArrayString::from(txt.as_str());
+                Message::Msg1029(t)
+            }) {
+                out.push(m);
+            }
+        }
+    }
+    if let Some(Message::Msg1033(t)) = template(r, 1033) {
+        for txt in ["é".repeat(40), "a".repeat(30) + "漢字", "\u{0}".repeat(33), "x".repeat(31) + "\u{10ffff}"] {
+            if let Ok(m) = crate::util::guarded(|| {
+                let mut t = t.clone();
+                t.antenna_descriptor_str = rtcm_rs::util::Df88591String::from(txt.as_str());
+                t.receiver_serial_number_str = rtcm_rs::util::Df88591String::from(txt.as_str());
+                Message::Msg1033(t)
+            }) {
+                out.push(m);
+            }
+        }
+    }
     out.extend(crate::special_msm::msm_specials(r));
     out.extend(crate::special_msm::bias_specials(r));
     out
